@@ -25,6 +25,7 @@ def run(tier, seed):
     # devices that run full in the MIDDLE of a batch (some records of the batch got their extent, a later one did
     # not): the counters the next acknowledged flush persists still equal the live totals (MetaMatches)
     jobs += ce.full_device_jobs(rng, 4 if tier == "quick" else 24, maximages="100")
+    jobs += ce.block_boundary_batch_jobs(rng, 3 if tier == "quick" else 8)
     viol, st, traces = ce.run_and_validate(PROP, fxv, rd, jobs, INV)
     # failing metadata writes: flush may only report success when the persisted counters are right
     base = ["--seed", str(rng.randrange(1 << 30)), "--steps", "25", "--fmt", "3", "--blocks", "40",
